@@ -25,6 +25,7 @@ import (
 	"net"
 	"strings"
 	"sync"
+	"sync/atomic"
 	"time"
 
 	mqPkts "github.com/eclipse/paho.mqtt.golang/packets"
@@ -58,6 +59,14 @@ type handler1 struct {
 	// Serializes sending to the client (incl. pktBuffer manipulation) with
 	// the changes of the client's sleep state.
 	snSendLock sync.Mutex
+	// The sleep duration announced by the client's last DISCONNECT.
+	sleepDuration time.Duration
+	// Stops the pinger which keeps the MQTT connection of a sleeping client
+	// alive. Used by the MQTT-SN receive goroutine only.
+	cancelSleepPinger context.CancelFunc
+	// The number of PINGREQs sent to the broker by the gateway itself (i.e.
+	// not on behalf of the client's PINGREQ) and not answered yet.
+	ownPings int32
 	// for testing
 	mockupDialFunc func() net.Conn
 }
@@ -418,6 +427,11 @@ func (h *handler1) handleMqtt(ctx context.Context, pkt mqPkts.ControlPacket) err
 
 	// Client PING transaction (keepalive).
 	case *mqPkts.PingrespPacket:
+		// Response to the gateway's own ping => do not pass to the client.
+		if atomic.LoadInt32(&h.ownPings) > 0 {
+			atomic.AddInt32(&h.ownPings, -1)
+			return nil
+		}
 		// Response to sleepPinger pings => do not pass to the sleeping client.
 		if h.state.Get() != util.StateActive {
 			return nil
@@ -536,6 +550,12 @@ func (h *handler1) handleConnect(ctx context.Context, snConnect *snPkts1.Connect
 	// signalizes the client's return to the active state, see
 	// doc/specification-interpretation.md.
 	if state := h.state.Get(); state == util.StateAwake || state == util.StateAsleep {
+		// The client is responsible for the keepalive again. The CONNECT is
+		// not passed to the broker => reset the broker's keepalive timer.
+		h.stopSleepPinger()
+		if err := h.pingBroker(); err != nil {
+			return err
+		}
 		h.snSendLock.Lock()
 		defer h.snSendLock.Unlock()
 		h.setState(util.StateActive)
@@ -803,6 +823,7 @@ func (h *handler1) handleMqttSn(ctx context.Context, pkt snPkts.Packet) error {
 			// The client goes back to sleep after it receives PINGRESP.
 			// See MQTT-SN specification v. 1.2, chapter 6.14.
 			h.setState(util.StateAsleep)
+			h.startSleepPinger(ctx)
 			return nil
 		} else {
 			mqPkt := mqPkts.NewControlPacket(mqPkts.Pingreq).(*mqPkts.PingreqPacket)
@@ -812,6 +833,7 @@ func (h *handler1) handleMqttSn(ctx context.Context, pkt snPkts.Packet) error {
 	// Client DISCONNECT transaction.
 	case *snPkts1.Disconnect:
 		if snPkt.Duration == 0 {
+			h.stopSleepPinger()
 			mqPkt := mqPkts.NewControlPacket(mqPkts.Disconnect).(*mqPkts.DisconnectPacket)
 			h.mqttSend(mqPkt)
 			h.setState(util.StateDisconnected)
@@ -822,11 +844,9 @@ func (h *handler1) handleMqttSn(ctx context.Context, pkt snPkts.Packet) error {
 			return Shutdown
 		} else {
 			h.log.Debug("Going to sleep for %vs", snPkt.Duration)
-			if h.keepAlive != 0 && snPkt.Duration > h.keepAlive {
-				// We must ensure MQTT gateway considers client alive during sleep period.
-				cancelPinger := h.startSleepPinger(ctx)
-				time.AfterFunc(time.Duration(snPkt.Duration)*time.Second, cancelPinger)
-			}
+			// We must ensure MQTT gateway considers client alive during sleep period.
+			h.sleepDuration = time.Duration(snPkt.Duration) * time.Second
+			h.startSleepPinger(ctx)
 			// A client which is already asleep is awake now to prolong its
 			// sleep: the reply must not be queued (and the packets already
 			// queued for the client must be kept).
@@ -889,24 +909,47 @@ func (h *handler1) handleMqttSn(ctx context.Context, pkt snPkts.Packet) error {
 	}
 }
 
-func (h *handler1) startSleepPinger(ctx context.Context) context.CancelFunc {
+// Send the gateway's own PINGREQ to the broker.
+func (h *handler1) pingBroker() error {
+	atomic.AddInt32(&h.ownPings, 1)
+	p := mqPkts.NewControlPacket(mqPkts.Pingreq).(*mqPkts.PingreqPacket)
+	return h.mqttSend(p)
+}
+
+func (h *handler1) stopSleepPinger() {
+	if h.cancelSleepPinger != nil {
+		h.cancelSleepPinger()
+		h.cancelSleepPinger = nil
+	}
+}
+
+// The sleep pinger keeps the MQTT connection of a sleeping client alive: it
+// pings the broker immediately (the client's DISCONNECT or wake-up PINGREQ is
+// not passed to the broker) and then once per keepalive. It is (re)started
+// whenever the client falls asleep and it stops when the client does not wake
+// up in the announced sleep duration (the client is considered lost then and
+// the broker will close the connection).
+func (h *handler1) startSleepPinger(ctx context.Context) {
+	h.stopSleepPinger()
 	ctx2, cancel := context.WithCancel(ctx)
+	h.cancelSleepPinger = cancel
+	lostTimer := time.AfterFunc(h.sleepDuration, cancel)
+	keepAlive := time.Duration(h.keepAlive) * time.Second
 	h.group.Go(func() error {
 		h.log.Debug("Sleep pinger starts.")
 		defer h.log.Debug("Sleep pinger quits.")
+		defer lostTimer.Stop()
 		for {
+			if err := h.pingBroker(); err != nil {
+				return err
+			}
 			select {
-			case <-time.After(time.Duration(h.keepAlive) * time.Second):
-				p := mqPkts.NewControlPacket(mqPkts.Pingreq).(*mqPkts.PingreqPacket)
-				if err := h.mqttSend(p); err != nil {
-					return err
-				}
+			case <-time.After(keepAlive):
 			case <-ctx2.Done():
 				return nil
 			}
 		}
 	})
-	return cancel
 }
 
 // Send the packets buffered for a sleeping client.
